@@ -85,12 +85,12 @@ Definition run_split_limit (args : list str) : str :=
   | _ => bs "?bad-args"
   end.
 
-Fixpoint send_all (s : state) (es : list sevent) : res (list str) :=
+Fixpoint send_all (gf : bool) (s : state) (es : list sevent) : res (list str) :=
   match es with
   | [] => Ok []
   | e :: r =>
-    ps <- send s e ;;
-    rest <- send_all s r ;;
+    ps <- (if gf then send_gf s e else send s e) ;;
+    rest <- send_all gf s r ;;
     Ok (List.map event_bytes ps ++ rest)
   end.
 
@@ -112,7 +112,9 @@ Definition run_split_send (args : list str) : str :=
     let '(prev, rest1) := take_lines (arg_nat n) rest in
     let '(ls, rest') := match rest1 with m :: r1 => take_lines (arg_nat m) r1 | [] => ([], []) end in
     let s := apply_conn prev ls in
-    match send_all s (op_events op s rest') with
+    (* a leading 'g': the client has Config.GlobalFormat *)
+    let '(gf, op) := match op with 103 :: o => (true, o) | _ => (false, op) end in
+    match send_all gf s (op_events op s rest') with
     | Panic => bs "PANIC"
     | Ok lines => show_Z (max_event_length s) ++ semi ++ counted lines
     end
